@@ -614,5 +614,50 @@ func run(c *vf.Ctx) {
 }
 
 func replay(c *vf.Ctx, raw json.RawMessage) {
-	fmt.Println("replay: re-run the check; schedule replays are printed by `h-sched-c04 check C04 --replay` (not implemented in the plain binary)")
+	if !verifrt.Instrumented {
+		vf.ExecSchedReplay("C04", c.Only)
+		return
+	}
+	var rp struct {
+		Chain    string `json:"chain"`
+		Input    string `json:"input"`
+		B        int    `json:"b"`
+		Schedule []int  `json:"schedule"`
+		SchedA   []int  `json:"schedule_a"`
+		SchedB   []int  `json:"schedule_b"`
+	}
+	json.Unmarshal(raw, &rp)
+	dir, _ := os.MkdirTemp("/dev/shm", "verif-c04r-")
+	defer os.RemoveAll(dir)
+	for _, quick := range []bool{true, false} {
+		for _, cfgs := range enumerate(quick) {
+			for _, cf := range cfgs {
+				if cf.Chain.Name == rp.Chain && cf.In.Name == rp.Input && cf.B == rp.B {
+					for _, sched := range [][]int{rp.Schedule, rp.SchedA, rp.SchedB} {
+						if sched == nil {
+							continue
+						}
+						// replayed twice: identical observations are required before a schedule is believed
+						o1, r1 := vf.ReplaySchedule(cf.spec(dir), sched)
+						o2, r2 := vf.ReplaySchedule(cf.spec(dir), sched)
+						fmt.Printf("replay of %s\n  schedule %v\n  deadlock=%v horizon=%v fault=%v steps=%d\n  outcome: %q\n", cfgKey(cf), sched, r1.Deadlock, r1.Horizon, r1.Fault != nil, r1.Steps, o1)
+						if r1.Deadlock {
+							fmt.Printf("  blocked: %v\n", r1.Blocked)
+						}
+						fmt.Printf("  trace (goroutine:operation@site):\n")
+						for i, t := range r1.Trace {
+							fmt.Printf("    %3d %s\n", i, t)
+						}
+						if o1 != o2 || r1.Deadlock != r2.Deadlock || r1.Steps != r2.Steps {
+							fmt.Printf("BROKEN: property=C04 the same schedule produced different observations on two replays (uncontrolled nondeterminism)\n")
+						} else {
+							fmt.Printf("  second replay: identical observations\n")
+						}
+					}
+					return
+				}
+			}
+		}
+	}
+	fmt.Println("replay: configuration not found in the current enumeration")
 }
